@@ -173,23 +173,45 @@ def selCoord : List PosIx → List Nat → Option (List Nat)
     | _, _ => none
   | _ :: _, [] => none
 
+/-- `values[np.ix_-style key] = v` : cells addressed by the selection take the (broadcast) value at
+their selection coordinate, every other cell keeps its value -/
+def putVals {α} (vals : NDArr α) (pix : List PosIx) (vget : List Nat → α) : NDArr α :=
+  { shape := vals.shape
+    get := fun j => match selCoord pix j with
+      | some c => vget c
+      | none => vals.get j }
+
+/-- NumPy's resolution of the per-dimension indices of an assignment.  NumPy does not bounds-check
+integer index arrays when the (outer) selection is empty: scalars and slices are always resolved,
+arrays only when every dimension selects something. -/
+def putIndices (axes : List Axis) (raw : List RawIx) : Except Err (List PosIx) :=
+  let anyEmpty := (raw.zip axes).any fun (r, ax) =>
+    match r with
+    | .ints l => l.isEmpty
+    | .mask m => !m.any id
+    | .slice s e st => (match slicePositions s e st ax.size with | .ok ps => ps.isEmpty | .error _ => false)
+    | .int _ => false
+  (raw.zip axes).mapM fun (r, ax) =>
+    match r with
+    | .ints _ => if anyEmpty then pure (PosIx.list []) else resolveRaw r ax.size
+    | .mask _ => if anyEmpty then pure (PosIx.list []) else resolveRaw r ax.size
+    | _ => resolveRaw r ax.size
+
+/-- the assigned value as a function of the selection coordinate (NumPy broadcasting) -/
+def putRhs {α} (rhs : RHS α) (selShape : List Nat) : Except Err (List Nat → α) :=
+  match rhs with
+  | .scalar v => .ok (fun _ => v)
+  | .arr v => match broadcastTo v selShape with
+    | some g => .ok g
+    | none => .error .value
+
 /-- `_setitem` (orthogonal branch): result array, or the error class -/
 def put {α} (a : DimArray α) (ui : UserIndex) (rhs : RHS α) (rkind : Kind) (cfg : IndexCfg)
     (cast : Bool) : Except Err (DimArray α) := do
   let raw ← getIndices a.axes ui { cfg with keepdims := false }
-  let pix ← (raw.zip a.axes).mapM fun (r, ax) => resolveRaw r ax.size
-  let selShape := outerShape pix
-  let vget ← match rhs with
-    | .scalar v => pure (fun (_ : List Nat) => v)
-    | .arr v => match broadcastTo v selShape with
-      | some g => pure g
-      | none => .error .value
-  let vals : NDArr α :=
-    { shape := a.vals.shape
-      get := fun j => match selCoord pix j with
-        | some c => vget c
-        | none => a.vals.get j }
-  pure { a with vals := vals, vkind := if cast then maybeCastKind a.vkind rkind else a.vkind }
+  let pix ← putIndices a.axes raw
+  let vget ← putRhs rhs (outerShape pix)
+  pure { a with vals := putVals a.vals pix vget, vkind := if cast then maybeCastKind a.vkind rkind else a.vkind }
 
 /-- `_setvalues_bool`: full-shape boolean mask, scalar right-hand side -/
 def putBool {α} (a : DimArray α) (mask : NDArr Bool) (v : α) (rkind : Kind) (cast : Bool) :
